@@ -42,18 +42,18 @@ def _u(name, src, allfns, define, fns, pool, nev, quick=0, **kw):
         res.append(_u1(name + "_accept", src, allfns, define, fns, pool, len(ent) // 2, tier="quick".join(map(str, ent)), **dict(kw)))
     res.append(_u1(name, src, allfns, define, fns, pool, nev, tier="thorough" if quick else "quick", **dict(kw)))
     return res
-def _u1(name, src, allfns, define, fns, pool, nev, unwind=0, timeout=1800, elt=16, keep=(), tier="quick", covers=2, prefix=3, short=False, script=None, cap=4, **kw):
+def _u1(name, src, allfns, define, fns, pool, nev, unwind=0, timeout=1800, elt=16, keep=(), tier="quick", covers=2, prefix=3, short=False, script=None, cap=4, leak=False, **kw):
     _closed_world(fns, pool, prefix)
     unwind = unwind or max(max(len(x) for x in pool) + 3, prefix + 2)
-    def mk(n_ev):
-        return dict(defines=[define, _pool(*pool), "VP_MAX_EVENTS=%d" % n_ev, "VP_GLIB_FIXED_CAP=%d" % cap, "VP_STR_PREFIX=%d" % prefix] + (["VP_SHORT"] if short else []) + (["VP_SCRIPT=" + script] if script else []) + ["VP_T_" + f for f in fns],
+    def mk(n_ev, leak_on=False):
+        return dict(defines=[define, _pool(*pool), "VP_MAX_EVENTS=%d" % n_ev, "VP_GLIB_FIXED_CAP=%d" % cap, "VP_STR_PREFIX=%d" % prefix] + (["VP_SHORT"] if short else []) + (["VP_SCRIPT=" + script] if script else []) + (["VP_LEAKCHECK"] if leak_on else []) + ["VP_T_" + f for f in fns],
                     bound=(("event streams whose event types and key scalars follow the well-formed sequence of one record (%d events) with arbitrary value scalars, a parse failure possible at every point;" if script else "event streams of at most %d events of any type (a parse failure possible at every point);") % n_ev) +
                           " scalar values from a pool of %d strings (every key the function compares against + sample values); lists hold at most %d elements" % (len(pool), cap),
-                    extra_flags=["--nondet-static", "--unwind", str(unwind), "--unwindset", "vp_bytes.0:%d,%s.0:%d,%s.1:%d" % (elt + 1, fns[0], n_ev + 2, fns[0], n_ev + 2)])
-    deep = dict(mk(nev + 3), timeout=6000) if (tier == "quick" and not script) else None
+                    extra_flags=["--nondet-static", "--unwind", str(unwind)] + (["--memory-leak-check"] if leak_on else []) + ["--unwindset", "vp_bytes.0:%d,%s.0:%d,%s.1:%d" % (elt + 1, fns[0], n_ev + 2, fns[0], n_ev + 2)])
+    deep = dict(mk(nev + 3, bool(leak)), timeout=6000) if (tier == "quick" and not script) else None
     return Unit(name="C13.parse_" + name, src=src, functions=fns, props=kw.pop("props", ["C13", "C14"]), no_dfcc=True, kind="bounded",
                 remove_bodies=[f for f in allfns if f not in fns and f not in keep], stub_srcs=["units/C13/parser_stubs.c"], covers=covers, min_obligations=10, timeout=timeout, tier=tier, deep=deep,
-                stubbed_contracts=["libyaml event API (units/C13/parser_model.h)", "strtol (stubs/vp_strtol.h)", "GLib GString/GArray (stubs/vp_glib.h)"], **mk(nev), **kw)
+                stubbed_contracts=["libyaml event API (units/C13/parser_model.h)", "strtol (stubs/vp_strtol.h)", "GLib GString/GArray (stubs/vp_glib.h)"], **mk(nev, leak is True), **kw)
 _TRK = "units/C13/parser_track.c"
 _TRN = "units/C13/parser_train.c"
 _BRD = "units/C13/parser_board.c"
@@ -63,11 +63,11 @@ UNITS = sum([
     _u("aspect", _TRK, _tr, "VP_H_ASPECT", ["bidib_config_parse_aspect"], ["id", "value", "a", "b", "0x01", "2", "zz"], 6),
     _u("dcc_aspect_port", _TRK, _tr, "VP_H_DCC_PORT", ["bidib_config_parse_dcc_aspect_port"], ["port", "value", "0", "1", "0x02", "zz"], 6, elt=2),
     _u("dcc_aspect", _TRK, _tr, "VP_H_DCC_ASPECT", ["bidib_config_parse_dcc_aspect", "dcc_aspects_equal"], ["id", "ports", "a", "b"], 8),
-    _u("board_accessory", _TRK, _tr, "VP_H_BOARD_ACC", ["bidib_config_parse_single_board_accessory", "initial_value_valid"], ["id", "number", "aspects", "initial", "n", "q", "0x01", "zz"], 12, elt=24, props=["C13", "C14", "C20"]),
-    _u("dcc_accessory", _TRK, _tr, "VP_H_DCC_ACC", ["bidib_config_parse_single_dcc_accessory", "initial_value_valid"], ["id", "dcc-address", "extended", "aspects", "initial", "n", "q", "0x01", "0x1234", "zz"], 14, elt=32, props=["C13", "C14", "C20"]),
-    _u("peripheral", _TRK, _tr, "VP_H_PERIPHERAL", ["bidib_config_parse_single_board_peripheral", "initial_value_valid"], ["id", "number", "port", "aspects", "initial", "n", "q", "0x01", "0x1234", "zz"], 14, elt=32, props=["C13", "C14", "C20"]),
-    _u("segment", _TRK, _tr, "VP_H_SEGMENT", ["bidib_config_parse_single_board_segment"], ["id", "address", "length", "q", "0x01", "zz"], 8),
-    _u("reverser", _TRK, _tr, "VP_H_REVERSER", ["bidib_config_parse_single_board_reverser"], ["id", "cv", "q", "7", "zz"], 6),
+    _u("board_accessory", _TRK, _tr, "VP_H_BOARD_ACC", ["bidib_config_parse_single_board_accessory", "initial_value_valid"], ["id", "number", "aspects", "initial", "n", "q", "0x01", "zz"], 12, elt=24, props=["C13", "C14", "C20"], leak="deep"),
+    _u("dcc_accessory", _TRK, _tr, "VP_H_DCC_ACC", ["bidib_config_parse_single_dcc_accessory", "initial_value_valid"], ["id", "dcc-address", "extended", "aspects", "initial", "n", "q", "0x01", "0x1234", "zz"], 14, elt=32, props=["C13", "C14", "C20"], leak="deep"),
+    _u("peripheral", _TRK, _tr, "VP_H_PERIPHERAL", ["bidib_config_parse_single_board_peripheral", "initial_value_valid"], ["id", "number", "port", "aspects", "initial", "n", "q", "0x01", "0x1234", "zz"], 14, elt=32, props=["C13", "C14", "C20"], leak="deep"),
+    _u("segment", _TRK, _tr, "VP_H_SEGMENT", ["bidib_config_parse_single_board_segment"], ["id", "address", "length", "q", "0x01", "zz"], 8, leak=True),
+    _u("reverser", _TRK, _tr, "VP_H_REVERSER", ["bidib_config_parse_single_board_reverser"], ["id", "cv", "q", "7", "zz"], 6, leak=True),
     _u("board_setup", _TRK, _tr, "VP_H_BOARD_SETUP", ["bidib_config_parse_single_board_setup"], ["id", "points-board", "points-dcc", "signals-board", "signals-dcc", "peripherals", "segments", "reversers", "B", "zz"], 9, prefix=9),
     _u("train_calibration", _TRN, _tn, "VP_H_CALIBRATION", ["bidib_config_parse_single_train_calibration"], ["5", "126", "127", "zz"], 11, elt=4, cap=10, unwind=11),
     _u("train_function", _TRN, _tn, "VP_H_TRAIN_PERIPH", ["bidib_config_parse_single_train_peripheral"], ["id", "bit", "initial", "p", "q", "r", "1", "31", "32", "zz"], 8, props=["C13", "C14", "C20"]),
